@@ -61,13 +61,9 @@ def run (j : Json) : Except String Json := do
     let two := conforms ct p t || dfltOK d t
     let holds := checkC09 ct p d t implObs
     let agree := obs9Agree modelObs implObs
-    -- the implementation behaves as modelled (callable dict keys are required, `_precedence` = 0),
-    -- which the documented rule does not allow
-    let known := if !holds && agree && !keysOK p then "callable_key_required" else ""
-    return Json.mkObj [("agree", agree), ("holds", holds), ("known", known),
+    return Json.mkObj [("agree", agree), ("holds", holds),
       ("model", obs9ToJson modelObs), ("model_holds", checkC09 ct p d t modelObs),
       ("branch", s!"{specHead p}:{verdictTag den.1}"), ("conforms", two),
-      ("keys_ok", keysOK p),
       ("wf", WF genEnv && WF9 genEnv facts9)]
 
 end Glom.C09.Driver
